@@ -439,6 +439,38 @@ func c04FaultLayer(c *explore.Ctx) {
 	}
 }
 
+// padSegment pads the current segment so that the next record straddles a 512-byte-aligned file offset (the only
+// place where a sector-granular short write can leave a part of a record behind): it ends 8 bytes before one.
+func padSegment(c *explore.Ctx, s *explore.Sess) string {
+	sizes := map[string]int{}
+	for _, nm := range s.FS.NamesIn(explore.DBPath) {
+		sizes[nm] = len(s.FS.Bytes(explore.DBPath + "/" + nm))
+	}
+	pad := func(k string, vlen int) bool {
+		v := strings.Repeat("p", vlen)
+		if err := s.DB.Put([]byte(k), []byte(v)); err != nil {
+			return false
+		}
+		s.Model[k] = v
+		return true
+	}
+	if !pad("pad-key-1", 1) {
+		return "padding Put failed"
+	}
+	for _, nm := range s.FS.NamesIn(explore.DBPath) {
+		if n := len(s.FS.Bytes(explore.DBPath + "/" + nm)); strings.HasSuffix(nm, ".psg") && n != sizes[nm] {
+			const k2 = "pad-key-2"
+			if !pad(k2, ((504-n-10-len(k2))%512+512)%512) {
+				return "padding Put failed"
+			}
+			if got := len(s.FS.Bytes(explore.DBPath+"/"+nm)) % 512; got != 504 {
+				c.HarnessError("padding: segment %s ends at offset %d mod 512, want 504", nm, got)
+			}
+		}
+	}
+	return ""
+}
+
 // c04FaultCase injects the fault at the n-th mutating call of op. done = the operation makes fewer than n such calls.
 func c04FaultCase(c *explore.Ctx, base *explore.Base, bname, cfg string, pre []explore.Op, o explore.Op, n int, memo recMemo, partial ...bool) (bool, *explore.Violation) {
 	s := base.NewSess()
@@ -462,34 +494,8 @@ func c04FaultCase(c *explore.Ctx, base *explore.Base, bname, cfg string, pre []e
 		}
 	}
 	if part && (base.Cfg.MaxSeg == 0 || base.Cfg.MaxSeg > 1<<16) {
-		// pad the current segment so that the next record straddles a 512-byte-aligned file offset (the only
-		// place where a sector-granular short write can leave a part of a record behind)
-		sizes := map[string]int{}
-		for _, nm := range s.FS.NamesIn("db") {
-			sizes[nm] = len(s.FS.Bytes("db/" + nm))
-		}
-		pad := func(k string, vlen int) bool {
-			v := strings.Repeat("p", vlen)
-			if err := s.DB.Put([]byte(k), []byte(v)); err != nil {
-				return false
-			}
-			s.Model[k] = v
-			return true
-		}
-		if !pad("pad-key-1", 1) {
-			return true, mk("prefix", "padding Put failed")
-		}
-		for _, nm := range s.FS.NamesIn("db") {
-			if n := len(s.FS.Bytes("db/" + nm)); strings.HasSuffix(nm, ".psg") && n != sizes[nm] {
-				const k2 = "pad-key-2"
-				vlen := ((504-n-10-len(k2))%512 + 512) % 512
-				if !pad(k2, vlen) {
-					return true, mk("prefix", "padding Put failed")
-				}
-				if got := len(s.FS.Bytes("db/"+nm)) % 512; got != 504 {
-					c.HarnessError("padding: segment %s ends at offset %d mod 512, want 504", nm, got)
-				}
-			}
+		if msg := padSegment(c, s); msg != "" {
+			return true, mk("prefix", msg)
 		}
 	}
 	m0 := s.Model.Clone()
